@@ -40,7 +40,7 @@ type ScriptConn struct {
 	// taken): a control point for "something happens as the peer is written to".
 	OnWrite func()
 	// OnRead, if set, runs at the start of every Read.
-	OnRead func()
+	OnRead    func()
 	ReadCalls int
 	ZeroReads int
 }
